@@ -5,6 +5,7 @@ import (
 	"bytes"
 	"fmt"
 	"io"
+	"testing/iotest"
 
 	"verif/mc/env"
 
@@ -36,7 +37,7 @@ func init() {
 // c09Envs: how the mutant reaches ReadPacket. A decoder may treat readers
 // differently (concrete types, Peek/Discard), and a frame that arrives as
 // the second of a burst finds its header already buffered.
-var c09Envs = []string{"bytes.Reader", "bufio-burst", "bytes.Buffer", "rich-burst", "scripted"}
+var c09Envs = []string{"bytes.Reader", "bufio-burst", "bytes.Buffer", "rich-burst", "scripted", "scripted, last bytes together with io.EOF", "byte by byte, last byte together with io.EOF"}
 
 func c09Open(envi int, m []byte) (io.Reader, bool) {
 	switch envi {
@@ -55,6 +56,10 @@ func c09Open(envi int, m []byte) (io.Reader, bool) {
 		return bytes.NewBuffer(append([]byte(nil), m...)), true
 	case 4:
 		return &env.Reader{Data: m}, true
+	case 5:
+		return &env.Reader{Data: m, MixEnd: true}, true
+	case 6:
+		return iotest.DataErrReader(iotest.OneByteReader(bytes.NewReader(m))), true
 	}
 	return bytes.NewReader(m), true
 }
